@@ -1,27 +1,207 @@
 /-
   CB.Props.C09 — property C09: modular exponentiation, multi-exponentiation and linear combination are exact.
-  (milestone 1: structural theorems; the ladder / lincomb theorems follow)
+
+  Models: CB/Model/Pow.lean (CB.Pow), CB/Model/Lincomb.lean (CB.Lincomb).  Facts imported from property C08
+  (file CB/Props/C08.lean, all proved there, no hypothesis carried here):
+    T08.1 `CB.P08.redc_spec`  (through `CB.Monty.mulMont_spec` / `retrieveMont_spec`: Montgomery multiplication
+          and `retrieve` on canonical values),
+    T08.2 `CB.P08.constructors_yield_constants` / `CB.Monty.good_spec` (every parameter constructor yields
+          `one = B^n mod m`, `mod_neg_inv·m ≡ −1`),
+    T08.4 `CB.P08.amm_congruence_and_bound`, `CB.P08.amm_reduction_error` (almost-Montgomery multiplication),
+          `CB.P08.boxed_retrieve_reduced` (`AmmOneOK`), `CB.Monty.opNew_canon`, `CB.Monty.opRetrieve_canon`,
+    C07/C08 `CB.Monty.subModWithCarry_spec`, `CB.Monty.addMod_spec` (lincomb recombination).
+  Wide multiplication inside `mulMont` is a value-level call (exactness of mul is C03).
+
+  Notation: `Rep ms z V` — `z` is the canonical `n`-limb Montgomery representative of the residue of `V`
+  (`val z = V·B^n mod m`); `ModOK ms k` — `ms` well-formed, `m > 0`, `k·m ≡ −1 (mod 2^64)` (hence `m` odd).
 -/
-import CB.Model.Pow
-import CB.Model.Lincomb
+import CB.Lemmas.C09Boxed
+import CB.Lemmas.C09Lincomb
 namespace CB.P09
-open CB CB.Monty CB.Pow
+open CB CB.Monty CB.Pow CB.Lincomb
+
+/-! ## T09.1 — `pow_bounded_exp` (fixed-width forms: `MontyForm`, `ConstMontyForm`) -/
+
+/-- The 4-bit fixed-window ladder, for every limb count of base and exponent, every base residue `X`, every
+    exponent and EVERY bit bound `bits` (the Rust code additionally panics for `bits > BITS(exponent)`, see
+    `indexPanics`; the model reads limbs beyond the exponent as zero): the result is the canonical Montgomery
+    form of `X ^ (e mod 2^bits)` and `retrieve()` returns `X ^ (e mod 2^bits) mod m`. -/
+theorem pow_bounded_exp_exact (ms one x e : List Nat) (k X bits : Nat)
+    (hm : ModOK ms k) (hone : Rep ms one 1) (hx : Rep ms x X) (he : WF e) :
+    Rep ms (powMont x e bits ms one k) (X ^ (val e % 2 ^ bits)) ∧
+    val (powMont x e bits ms one k) < val ms ∧
+    val (retrieveMont (powMont x e bits ms one k) ms k) = powSpec (val ms) X (val e) bits := by
+  have h : List.Forall₂ (BaseOK ms) [(x, e)] [(X, val e)] :=
+    List.Forall₂.cons ⟨hx, he, rfl⟩ List.Forall₂.nil
+  have r := multiExpArray_spec hm hone bits h
+  have r' : Rep ms (powMont x e bits ms one k) (X ^ (val e % 2 ^ bits)) :=
+    r.congr (by simp [prodPow])
+  exact ⟨r', r'.lt hm, (r'.retrieve hm).1⟩
 
 /-- `exponent_bits = 0` returns `one` (1 in Montgomery form) — fixed forms. -/
 theorem powMont_zero_bits (x e ms one : List Nat) (k : Nat) : powMont x e 0 ms one k = one := rfl
 
-/-- `exponent_bits = 0` returns `one` — boxed form (no final reduction happens on this path). -/
-theorem bPowMont_zero_bits (x e ms one : List Nat) (k : Nat) : bPowMont x e 0 ms one k = one := rfl
+/-- … which retrieves to `1 mod m` (`x^0`), for every modulus with canonical `one`. -/
+theorem pow_zero_bits_retrieves_one (ms one x e : List Nat) (k : Nat) (hm : ModOK ms k) (hone : Rep ms one 1) :
+    val (retrieveMont (powMont x e 0 ms one k) ms k) = 1 % val ms := by
+  rw [powMont_zero_bits]; exact (hone.retrieve hm).1
 
-/-- `pow` is `pow_bounded_exp` with `exponent_bits = BITS(exponent)`. -/
+/-- `pow` is `pow_bounded_exp` with `exponent_bits = BITS(exponent)` (inherent `pow` and the blanket
+    `Pow::pow` of src/traits.rs). -/
 theorem powFull_eq (x e ms one : List Nat) (k : Nat) :
     powFull x e ms one k = powMont x e (64 * e.length) ms one k := rfl
 
-theorem bPowFull_eq (x e ms one : List Nat) (k : Nat) :
-    bPowFull x e ms one k = bPowMont x e (64 * e.length) ms one k := rfl
+/-- hence `pow` retrieves to `X ^ e mod m` for a well-formed exponent. -/
+theorem pow_exact (ms one x e : List Nat) (k X : Nat)
+    (hm : ModOK ms k) (hone : Rep ms one 1) (hx : Rep ms x X) (he : WF e) :
+    val (retrieveMont (powFull x e ms one k) ms k) = X ^ val e % val ms := by
+  rw [powFull_eq, (pow_bounded_exp_exact ms one x e k X _ hm hone hx he).2.2, powSpec]
+  have : val e < 2 ^ (64 * e.length) := by
+    have := val_lt he; rwa [B_eq_pow, ← Nat.pow_mul] at this
+  rw [Nat.mod_eq_of_lt this]
+
+/-! ## T09.2 — multi-exponentiation = product of the individual powers -/
 
 /-- array and slice multi-exponentiation are the same function. -/
 theorem multiExpSlice_eq_array (bes : List (List Nat × List Nat)) (bits : Nat) (ms one : List Nat) (k : Nat) :
     multiExpSlice bes bits ms one k = multiExpArray bes bits ms one k := rfl
+
+/-- for every number of terms (including none) and every bit bound: the result is canonical and retrieves to
+    `Π Xᵢ ^ (eᵢ mod 2^bits) mod m` (`multiSpec`). -/
+theorem multi_exponentiate_exact (ms one : List Nat) (k bits : Nat)
+    (bes : List (List Nat × List Nat)) (XEs : List (Nat × Nat))
+    (hm : ModOK ms k) (hone : Rep ms one 1) (h : List.Forall₂ (BaseOK ms) bes XEs) :
+    Rep ms (multiExpArray bes bits ms one k) (prodPow (fun e => e % 2 ^ bits) XEs) ∧
+    val (retrieveMont (multiExpArray bes bits ms one k) ms k) = multiSpec (val ms) bits XEs := by
+  have r := multiExpArray_spec hm hone bits h
+  exact ⟨r, by rw [(r.retrieve hm).1, prodPow_mod]⟩
+
+/-- the single-base ladder is the one-term multi-exponentiation (`pow_montgomery_form` forwards). -/
+theorem powMont_is_multi (x e : List Nat) (bits : Nat) (ms one : List Nat) (k : Nat) :
+    powMont x e bits ms one k = multiExpArray [(x, e)] bits ms one k := rfl
+
+/-! ## T09.3 — the boxed ladder (almost-reduced accumulator, two final conditional subtractions) -/
+
+/-- `exponent_bits = 0` returns `one` — boxed form (no final reduction happens on this path). -/
+theorem bPowMont_zero_bits (x e ms one : List Nat) (k : Nat) : bPowMont x e 0 ms one k = one := rfl
+
+/-- inside the boxed ladder every table entry is `< 2m`, the accumulator after the last multiplication is
+    `< 3m` (`⌊z/m⌋ ≤ 2`), and the two conditional subtractions return the canonical form of
+    `X ^ (e mod 2^bits)`; so `bits = 0` included, the boxed result is canonical whenever `one` is. -/
+theorem boxed_pow_bounded_exp_exact (ms one x e : List Nat) (k X bits : Nat)
+    (hm : ModOK ms k) (hone : Rep ms one 1) (hx : Rep ms x X) (he : WF e) :
+    Rep ms (bPowMont x e bits ms one k) (X ^ (val e % 2 ^ bits)) := by
+  by_cases hb : bits = 0
+  · subst hb; rw [bPowMont_zero_bits]; exact hone.congr (by simp [Nat.mod_one])
+  · exact bPowMont_spec hm hone hx he bits (Nat.pos_of_ne_zero hb)
+
+/-- the accumulator bound that makes two subtractions enough, stated on the loop itself. -/
+theorem boxed_accumulator_lt_3m (ms one x e : List Nat) (k X bits : Nat)
+    (hm : ModOK ms k) (hone : Rep ms one 1) (hx : Rep ms x X) (he : WF e) (hb : 0 < bits) :
+    val (bLimbLoop (bComputePowers x ms one k) e ms k (startOf BWINDOW bits)
+      ((startOf BWINDOW bits).limb + 1) one) / val ms ≤ 2 := by
+  have ⟨hg, _, _⟩ := startOf_geometry bits hb
+  have ht := bComputePowers_spec hm hx hone
+  have ⟨_, bd⟩ := bLimbLoop_spec hm bits hb ht he ((startOf WINDOW bits).limb + 1) (Nat.le_refl _)
+    (z := one) (hone.toCong.congr (by rw [pre_eq_zero (by omega)]; simp))
+  exact bd (Or.inl (by omega))
+
+theorem bPowFull_eq (x e ms one : List Nat) (k : Nat) :
+    bPowFull x e ms one k = bPowMont x e (64 * e.length) ms one k := rfl
+
+/-! ## T09.5 (pow) — the compile-time, runtime and boxed implementations agree -/
+
+/-- boxed and fixed ladders return the same limbs. -/
+theorem boxed_pow_eq_fixed (ms one x e : List Nat) (k X bits : Nat)
+    (hm : ModOK ms k) (hone : Rep ms one 1) (hx : Rep ms x X) (he : WF e) :
+    bPowMont x e bits ms one k = powMont x e bits ms one k := by
+  have a := boxed_pow_bounded_exp_exact ms one x e k X bits hm hone hx he
+  have b := (pow_bounded_exp_exact ms one x e k X bits hm hone hx he).1
+  exact val_inj a.wf b.wf (by rw [a.len, b.len]) (by rw [a.eq, b.eq])
+
+/-- in any representation, on a `Good` parameter set (C08), `pow_bounded_exp` maps canonical forms to
+    canonical forms of the power. -/
+theorem opPow_rep {st : State} {n m : Nat} (g : Good st.params n m) {x e : List Nat} {X : Nat}
+    (hx : Pow.Rep st.params.modulus x X) (he : WF e) (bits : Nat) :
+    Pow.Rep st.params.modulus (opPow st x e bits) (X ^ (val e % 2 ^ bits)) := by
+  have hmk := modOK_of_good g
+  have hone := rep_one_of_good g
+  unfold opPow
+  split
+  · exact boxed_pow_bounded_exp_exact _ _ _ e _ _ bits hmk hone hx he
+  · exact (pow_bounded_exp_exact _ _ _ e _ _ bits hmk hone hx he).1
+
+/-- API level, on any `Good` parameter set and in ANY of the three representations: every integer
+    `v < B^n` converted with `new`, every exponent, every bit bound: `pow_bounded_exp(…).retrieve()` is
+    `v ^ (e mod 2^bits) mod m` and the stored Montgomery form is the canonical one. -/
+theorem pow_bounded_exp_good {st : State} {n m : Nat} (g : Good st.params n m)
+    (v : Nat) (hv : v < B ^ n) (e : List Nat) (he : WF e) (bits : Nat) :
+    opRetrieve st (opPow st (opNew st v) e bits) = toLimbs n (v ^ (val e % 2 ^ bits) % m) ∧
+    opPow st (opNew st v) e bits = canon n m (v ^ (val e % 2 ^ bits) % m) := by
+  have hx : Pow.Rep st.params.modulus (opNew st v) (v % m) := by
+    rw [opNew_canon g (ammMulOK_holds g.mlt g.k) hv]; exact rep_canon g _
+  have hpow := opPow_rep g hx he bits
+  have hcan : opPow st (opNew st v) e bits = canon n m (v ^ (val e % 2 ^ bits) % m) := by
+    rw [eq_canon_of_rep g hpow]
+    unfold canon
+    congr 1
+    exact (((Nat.mod_modEq v m).pow _).trans (Nat.mod_modEq _ m).symm).mul_right _
+  refine ⟨?_, hcan⟩
+  rw [hcan]
+  exact opRetrieve_canon g (ammOneOK_holds g.mlt g.k) (Nat.mod_lt _ g.pos)
+
+/-- … in particular from ANY parameter constructor (`MontyParams::new`, `new_vartime`, `impl_modulus!`,
+    `BoxedMontyParams::new`), for every limb count `n` and every odd modulus `1 < m < B^n`. -/
+theorem pow_bounded_exp_from_constructors (n m : Nat) (hm : m < B ^ n) (hodd : m % 2 = 1) (hgt : 1 < m)
+    (rep : Monty.Rep) (p : Params)
+    (hp : p = paramsNew (toLimbs n m) ∨ p = paramsNewVartime (toLimbs n m) ∨ p = paramsConst (toLimbs n m) ∨
+          p = paramsBoxed (toLimbs n m))
+    (v : Nat) (hv : v < B ^ n) (e : List Nat) (he : WF e) (bits : Nat) :
+    opRetrieve { rep := rep, params := p, store := [] }
+      (opPow { rep := rep, params := p, store := [] } (opNew { rep := rep, params := p, store := [] } v) e bits)
+      = toLimbs n (v ^ (val e % 2 ^ bits) % m) ∧
+    opPow { rep := rep, params := p, store := [] } (opNew { rep := rep, params := p, store := [] } v) e bits
+      = canon n m (v ^ (val e % 2 ^ bits) % m) := by
+  have ⟨a, b, c, d⟩ := CB.P08.constructors_yield_constants n m hm hodd hgt
+  have hps : p = paramsSpec n m := by
+    rcases hp with h | h | h | h <;> rw [h] <;> assumption
+  have g : Good (State.mk rep p []).params n m := hps ▸ good_spec hm hodd hgt
+  exact pow_bounded_exp_good g v hv e he bits
+
+/-- consequently the result does not depend on the representation or on the constructor used. -/
+theorem pow_representations_agree (n m : Nat) (hm : m < B ^ n) (hodd : m % 2 = 1) (hgt : 1 < m)
+    (rep₁ rep₂ : Monty.Rep) (p₁ p₂ : Params)
+    (hp₁ : p₁ = paramsNew (toLimbs n m) ∨ p₁ = paramsNewVartime (toLimbs n m) ∨ p₁ = paramsConst (toLimbs n m) ∨
+          p₁ = paramsBoxed (toLimbs n m))
+    (hp₂ : p₂ = paramsNew (toLimbs n m) ∨ p₂ = paramsNewVartime (toLimbs n m) ∨ p₂ = paramsConst (toLimbs n m) ∨
+          p₂ = paramsBoxed (toLimbs n m))
+    (v : Nat) (hv : v < B ^ n) (e : List Nat) (he : WF e) (bits : Nat) :
+    opPow { rep := rep₁, params := p₁, store := [] } (opNew { rep := rep₁, params := p₁, store := [] } v) e bits =
+    opPow { rep := rep₂, params := p₂, store := [] } (opNew { rep := rep₂, params := p₂, store := [] } v) e bits := by
+  rw [(pow_bounded_exp_from_constructors n m hm hodd hgt rep₁ p₁ hp₁ v hv e he bits).2,
+      (pow_bounded_exp_from_constructors n m hm hodd hgt rep₂ p₂ hp₂ v hv e he bits).2]
+
+/-- non-vacuity of the hypotheses (`ModOK`, `Rep one 1`, `Rep x X`): 2 limbs, m = 2^64 + 1, k = 2^64 − 1,
+    one = R mod m = 1, x = the form of 3 (3·R mod m = 3), exponent 5, 3 bits: 3^5 mod m = 243. -/
+example : ∃ ms one x e k X bits, ModOK ms k ∧ Pow.Rep ms one 1 ∧ Pow.Rep ms x X ∧ WF e ∧
+    val (retrieveMont (powMont x e bits ms one k) ms k) = 243 :=
+  ⟨[1, 1], [1, 0], [3, 0], [5], WMAX, 3, 3,
+    ⟨WF_of_all _ (by decide), by decide, by decide⟩,
+    ⟨WF_of_all _ (by decide), rfl, by decide⟩, ⟨WF_of_all _ (by decide), rfl, by decide⟩,
+    WF_of_all _ (by decide), by decide +kernel⟩
+
+/-! ## the modulus-1 defect (DESIGN §7-14) on the `exponent_bits = 0` path -/
+
+/-- for modulus 1 the result of `pow_bounded_exp(_, 0)` is `one = 1`: not canonical (`¬ 1 < 1`); the boxed
+    `retrieve()` returns 1 where the property demands `x^0 mod 1 = 0`, the fixed-width `retrieve()` reduces it
+    to 0. (`hone : Rep ms one 1` of the theorems above fails exactly here.) -/
+theorem pow_zero_bits_modulus_one :
+    bPowMont [0] [5] 0 [1] (paramsBoxed [1]).one (paramsBoxed [1]).modNegInv = [1] ∧
+    bRetrieve (bPowMont [0] [5] 0 [1] (paramsBoxed [1]).one (paramsBoxed [1]).modNegInv) [1]
+      (paramsBoxed [1]).modNegInv = [1] ∧
+    powMont [0] [5] 0 [1] (paramsNew [1]).one (paramsNew [1]).modNegInv = [1] ∧
+    retrieveMont (powMont [0] [5] 0 [1] (paramsNew [1]).one (paramsNew [1]).modNegInv) [1]
+      (paramsNew [1]).modNegInv = [0] := by
+  decide +kernel
 
 end CB.P09
